@@ -26,7 +26,6 @@ import (
 	"github.com/go-openapi/analysis/internal/flatten/schutils"
 	"github.com/go-openapi/analysis/internal/flatten/sortref"
 	"github.com/go-openapi/analysis/internal/verifhook"
-	"github.com/go-openapi/jsonpointer"
 	"github.com/go-openapi/spec"
 )
 
@@ -283,22 +282,34 @@ func removeUnused(opts *FlattenOpts) {
 }
 
 func removeUnusedSinglePass(opts *FlattenOpts) (hasRemoved bool) {
-	expected := make(map[string]struct{})
-	for k := range opts.Swagger().Definitions {
-		expected[path.Join(definitionsPath, jsonpointer.Escape(k))] = struct{}{}
-	}
-
-	for _, k := range opts.Spec.AllDefinitionReferences() {
-		delete(expected, k)
-	}
-
-	for k := range expected {
-		hasRemoved = true
-		debugLog("removing unused definition %s", path.Base(k))
-		if opts.Verbose {
-			log.Printf("info: removing unused definition: %s", path.Base(k))
+	// names of the definitions that are the target of some $ref, as keys of the definitions section
+	// (i.e. neither JSON pointer-escaped nor URL-escaped)
+	used := make(map[string]struct{})
+	for _, ref := range opts.Spec.references.schemas {
+		if !ref.HasFragmentOnly {
+			continue
 		}
-		delete(opts.Swagger().Definitions, path.Base(k))
+
+		tokens := ref.GetPointer().DecodedTokens()
+		if len(tokens) > 1 && tokens[0] == "definitions" {
+			used[tokens[1]] = struct{}{}
+		}
+	}
+
+	unused := make([]string, 0, len(opts.Swagger().Definitions))
+	for k := range opts.Swagger().Definitions {
+		if _, isUsed := used[k]; !isUsed {
+			unused = append(unused, k)
+		}
+	}
+
+	for _, k := range unused {
+		hasRemoved = true
+		debugLog("removing unused definition %s", k)
+		if opts.Verbose {
+			log.Printf("info: removing unused definition: %s", k)
+		}
+		delete(opts.Swagger().Definitions, k)
 	}
 
 	opts.Spec.reload() // re-analyze
